@@ -329,6 +329,88 @@ pub fn lzw_encode(data: &[u8], early: bool, clear_every: Option<usize>) -> Vec<u
     bw.finish()
 }
 
+/// choices a conforming LZW encoder is free to make
+#[derive(Clone, Debug)]
+pub struct LzwOpts {
+    /// write a clear-table code first (the specification asks for it; readers cope without)
+    pub start_clear: bool,
+    /// extra clear-table codes: after that many codes since the last one
+    pub clear_every: Option<usize>,
+    /// let the table fill up completely (entry 4095) before clearing, instead of clearing a little earlier
+    pub fill_table: bool,
+    /// with a full table, emit that many further codes (no new entries) before the clear-table code
+    pub deferred: usize,
+    /// per phrase: percentage chance to stop matching early (a shorter phrase than the longest match)
+    pub cut_percent: u64,
+}
+
+impl LzwOpts {
+    pub fn greedy() -> LzwOpts {
+        LzwOpts { start_clear: true, clear_every: None, fill_table: false, deferred: 0, cut_percent: 0 }
+    }
+}
+
+/// PDF LZW encoder with the encoder's freedoms spelled out (see `LzwOpts`); `lzw_encode` is the plain case
+pub fn lzw_encode_opts(data: &[u8], early: bool, o: &LzwOpts, rng: &mut Rng) -> Vec<u8> {
+    let mut bw = BitWriter { out: vec![], acc: 0, nb: 0 };
+    let mut dict: HashMap<Vec<u8>, u32> = HashMap::new();
+    let mut next = 258u32;
+    let mut width = 9u32;
+    let mut since_clear = 0usize;
+    let mut full_codes = 0usize;
+    let e = if early { 1 } else { 0 };
+    if o.start_clear {
+        bw.put(256, width);
+    }
+    let mut i = 0;
+    while i < data.len() {
+        // longest match starting at i, possibly cut short
+        let mut len = 1;
+        let mut code = data[i] as u32;
+        let mut l = 2;
+        while i + l <= data.len() {
+            match dict.get(&data[i..i + l]) {
+                Some(&c) => {
+                    if o.cut_percent > 0 && rng.below(100) < o.cut_percent { break; }
+                    len = l;
+                    code = c;
+                    l += 1;
+                }
+                None => break,
+            }
+        }
+        bw.put(code, width);
+        since_clear += 1;
+        let rest = i + len < data.len();
+        if next < 4096 {
+            if rest {
+                dict.insert(data[i..i + len + 1].to_vec(), next);
+            }
+            // the reader adds an entry for every code but the first one after a clear-table code; the width
+            // follows the reader's table (which lags by one entry), see Spec/Lzw.lean
+            next += 1;
+            if next + e > (1 << width) && width < 12 {
+                width += 1;
+            }
+        } else {
+            full_codes += 1;
+        }
+        i += len;
+        let limit = if o.fill_table { 4096 } else { 4093 };
+        let table_done = next >= limit && (!o.fill_table || full_codes >= o.deferred);
+        if rest && (table_done || o.clear_every.map(|n| since_clear >= n).unwrap_or(false)) {
+            bw.put(256, width);
+            dict.clear();
+            next = 258;
+            width = 9;
+            since_clear = 0;
+            full_codes = 0;
+        }
+    }
+    bw.put(257, width);
+    bw.finish()
+}
+
 /// reference PDF LZW decoder: None = invalid code stream
 pub fn lzw_decode_ref(data: &[u8], early: bool) -> Option<Vec<u8>> {
     let mut out = vec![];
